@@ -19,7 +19,10 @@
 // missing or not removable when the message is deleted / evicted / expired), a hub listener that is
 // attached before the first delivery of every seq / conc / longhub history and must be told of
 // every stored and every deleted message, and stream longhub (longhub.go: messages that leave
-// after the hub's history ring has long moved past them).
+// after the hub's history ring has long moved past them).  Added after seeded change C16-11:
+// streams luagate and luafree (luascript.go): the listener is a real Lua script with both
+// after-hooks, loaded by luahost on the same extension host, held inside a hook on a gate channel
+// (or doing seeded work) while the messages it is being told about are removed.
 package c16
 
 import (
@@ -73,6 +76,11 @@ func init() {
 			"stream boxrace = 4-8 goroutines released together in rounds on the SAME one or two mailboxes of a manager + store (mem/file, cap 0/1/3/8, mem also maxkb 4, GOMAXPROCS 2/4/16): " +
 			"several removals of the same message, removals/purges/retention scans/MarkSeen against deliveries into the same mailbox, judged by conservation over events and final content; " +
 			"stream longhub = sequential, 2 back ends x hub history{1,3,10,30} x 6 plans: 2-10 victim messages, then history+40..55 further messages, then the victims leave by delete / purge / cap / size limit / retention scan / a mix. " +
+			"streams luagate / luafree = a real Lua script (luahost.NewFromReader on the extension host of manager + store, mem/file x cap{0,1,2,3,5} x GOMAXPROCS{1,2,4,16}) that defines both after-hooks " +
+			"and reports enter/leave with kind, mailbox, id on a Go<->Lua channel; one sequential client; luagate: 3-7 rounds in which the script is held inside its stored hook (or its deleted hook) on a gate channel " +
+			"while the held message is removed / the mailbox purged / deliveries evict past the cap / another mailbox gets a delivery and a removal, then the gate opens; " +
+			"luafree: 15-35 bursts of 1-8 deliveries with seeded hook work (0-4000 Lua loop iterations) followed at once by purge / removal of each / of the newest / of the oldest; " +
+			"judged on the script's reports: no hook entered before the previous invocation of the script has left, every message stored exactly once and - if it left - deleted exactly once, stored before deleted, per-mailbox delivery order. " +
 			"seq histories on the file back end also damage the content file of a listed message behind the store's back (removed, or replaced by a non-empty directory that cannot be unlinked) and then " +
 			"delete it, evict it by the cap, expire it by a scan or leave it to the rest of the history. Every seq/conc/longhub history keeps one msghub listener attached from before the first delivery: " +
 			"it must be handed exactly the stored and deleted events the extension listener is handed, stored before deleted. One listener name on both after-event brokers " +
@@ -92,6 +100,10 @@ func init() {
 			"stream boxrace: the return values of racing RemoveMessage/PurgeMessages/MarkSeen calls are not judged, only counted; a Deliver that returns an error demands no stored event; " +
 				"stored-before-deleted is demanded only for a message that was listed at a round boundary (its Deliver had returned before the round in which it left began); " +
 				"a message that leaves while its Deliver call has not yet emitted the stored event has no defined emission order: an inversion there is counted, not judged",
+			"streams luagate / luafree: a Lua script that defines after.message_stored and after.message_deleted is ONE listener (its hooks are never entered concurrently or out of emission order); " +
+				"the order of the script's reports on the notify channel is taken as the order of the hook entries/exits (a report is sent inside the hook, after it began and before it returns); " +
+				"one sequential client, so every removal is issued after the Deliver of the removed message has returned; the settle before the gate opens only widens what a run can see, no verdict depends on it; " +
+				"a hook that never reports its entry within the watchdog is a hang finding, a Deliver error or an unreadable report makes the history inconclusive",
 		},
 		MinObs: func(tier string) map[string]int64 {
 			m := map[string]int64{
@@ -125,6 +137,18 @@ func init() {
 				"longhub_deleted_after_leaving_ring:history10": 200, "longhub_deleted_after_leaving_ring:history30": 150} {
 				m[n] = v
 			}
+			// streams luagate / luafree: a real Lua script on the extension host (healthy quick run: 96 + 64
+			// histories, 327 / 142 rounds with the script held in its stored / deleted hook, 469 of them
+			// with a departure meanwhile, about 9 000 stored and 8 500 deleted reports of the script)
+			for n, v := range map[string]int64{"histories:luagate": 60, "histories:luafree": 40, "luagate:file": 30, "luagate:mem": 30,
+				"luafree:file": 20, "luafree:mem": 20, "luagate_capped": 40, "luafree_capped": 25,
+				"luagate_held_in_stored_hook": 150, "luagate_held_in_deleted_hook": 60, "luagate_rounds_message_left_while_script_held": 250,
+				"luagate_shape:held:remove": 40, "luagate_shape:held:purge": 40, "luagate_shape:held:cap": 30, "luagate_shape:held:other-box": 40,
+				"luagate_shape:holdD:remove": 15, "luagate_shape:holdD:purge": 15, "luagate_shape:holdD:cap": 12,
+				"lua_script_stored_reports": 4000, "lua_script_deleted_reports": 4000, "lua_script_order_judged": 4000,
+				"luafree_bursts_followed_at_once_by_removal": 500, "max_lua_states_in_one_history": 1} {
+				m[n] = v
+			}
 			for _, k := range configs {
 				m["config:"+k.String()] = 5
 			}
@@ -136,6 +160,9 @@ func init() {
 
 func run(c *fw.Ctx) {
 	defer runtime.GOMAXPROCS(4)
+	// the two short Lua streams go first: on a starved machine the child's time budget ends in the long streams
+	c.Cases("luagate", c.N(96, 960), func(i int, r *fw.Rand) { runLuaGate(c, i, r) })
+	c.Cases("luafree", c.N(64, 640), func(i int, r *fw.Rand) { runLuaFree(c, i, r) })
 	c.Cases("seq", c.N(12*70, 12*700), func(i int, r *fw.Rand) { runHistory(c, i, r, "seq") })
 	c.Cases("conc", c.N(12*20, 12*200), func(i int, r *fw.Rand) { runHistory(c, i, r, "conc") })
 	c.Cases("longhub", c.N(96, 960), func(i int, r *fw.Rand) { runHistory(c, i, r, "longhub") })
